@@ -77,6 +77,7 @@ def stmtPhase1 (sc : Schema) (cfg : Cfg) (t : Table) (args : Args) (s : Stmt) :
     | .ok (t', _) =>
       let news := rows.map fun es => es.map (evalE [] args)
       .ok (t', { kind := .insert, before := [], after := news.map (project sc (allCols sc)) }, news.map (keyOf sc))
+  | .failing _ => .error (.sql .other)
 
 theorem stmtPhase1_update_ok {sc : Schema} {cfg : Cfg} {t : Table} {args : Args} {sets : List (Nat × SetE)} {w : Cond}
     {r : Table × Item × List Key} (h : stmtPhase1 sc cfg t args (.update sets w) = .ok r) :
@@ -120,14 +121,23 @@ def localPhase1 (sc : Schema) (cfg : Cfg) : Table → LocalTx → Except P1Err (
       | .error e => .error e
       | .ok (t2, b) => .ok (t2, { items := if item.nonEmpty then item :: b.items else b.items, lockKeys := keys ++ b.lockKeys })
 
+/-- lock keys a statement leaves behind although it failed: an UPDATE / DELETE the database fails has
+    already had its before image taken, and with it its lock keys (over-locking, never under-locking) -/
+def failedKeys (sc : Schema) (t : Table) (args : Args) : Stmt → List Key
+  | .failing (.update sets w) => if namesKey sc sets then [] else (t.filter fun r => matches_ r args w).map (keyOf sc)
+  | .failing (.delete w) => (t.filter fun r => matches_ r args w).map (keyOf sc)
+  | _ => []
+
 /-- a local transaction whose application carries on after a failed statement (the database has
     rolled that statement back; the transaction stays open) and commits: the failed statements
-    contribute nothing -/
+    contribute no undo item -/
 def localPhase1Lenient (sc : Schema) (cfg : Cfg) : Table → LocalTx → Table × Branch × Nat
   | t, [] => (t, { items := [], lockKeys := [] }, 0)
   | t, (s, args) :: rest =>
     match stmtPhase1 sc cfg t args s with
-    | .error _ => localPhase1Lenient sc cfg t rest
+    | .error _ =>
+      let r := localPhase1Lenient sc cfg t rest
+      (r.1, { items := r.2.1.items, lockKeys := failedKeys sc t args s ++ r.2.1.lockKeys }, r.2.2)
     | .ok (t1, item, keys) =>
       let r := localPhase1Lenient sc cfg t1 rest
       (r.1, { items := if item.nonEmpty then item :: r.2.1.items else r.2.1.items, lockKeys := keys ++ r.2.1.lockKeys },
